@@ -1596,7 +1596,9 @@ fn c10_paths(q: &Queried, is_match: &dyn Fn(&str) -> Option<bool>, paths: &[Stri
         (_, None) => "depth:open",
     });
     let mut seen = BTreeSet::new();
-    for p in paths.iter().filter(|p| gpath::is_canonical(p)) {
+    // Canonical paths, and canonical paths followed by one separator (what a pattern that ends
+    // with a separator matches; the number of names is unaffected).
+    for p in paths.iter().filter(|p| gpath::is_canonical(p) || (p.len() > 1 && p.ends_with('/') && gpath::is_canonical(&p[..p.len() - 1]) && !p.ends_with("//"))) {
         let rooted = p.starts_with('/');
         match q.root {
             Some(When::Always) if !rooted => continue,
@@ -1620,7 +1622,8 @@ fn c10_paths(q: &Queried, is_match: &dyn Fn(&str) -> Option<bool>, paths: &[Stri
         seen.insert(n);
         rpt.evaluations += 1;
         if n < lo || hi.map_or(false, |h| n > h) {
-            let key = if n == 0 {
+            // (After a trailing separator the empty remainder is such an empty "component".)
+            let key = if n == 0 || (p.ends_with('/') && p.len() > 1 && n + 1 == lo) {
                 Some("empty-component-counted-as-a-component")
             }
             else if q.class_asts.iter().any(|(_, i)| !i.rep_edge.is_empty()) {
